@@ -68,7 +68,24 @@ class Ctx:
         self.internal: Optional[list] = None  # filled by harness.internal when enabled
         self.last_reply: Dict[tuple, Any] = {}
         self.stubs: Dict[str, Any] = {}  # fake-stream remote stubs by sid
+        self.rt = scn.get("rt")  # real-time configuration or None
+        self.rt_t0 = 0.0
         self.faults: List[dict] = []  # planned faults (harness/faults)
+
+    TICKS_PER_SECOND = 1024
+
+    def ticks(self):
+        """Virtual wall clock since the start of run(), in ticks of 1/1024 s."""
+        return int((self.loop.time() - self.rt_t0) * self.TICKS_PER_SECOND)
+
+    def deliver_now(self, sid):
+        p = self.pending.pop(sid, None)
+        if p is None or p.fut.done():
+            return
+        rep = self.behaviour.reply(self, p)
+        self.last_reply[(sid, p.kind)] = rep.value
+        self.delivered.append((self.ncall, sid, p.kind, False))
+        p.fut.set_result(rep)
 
     def fault_point(self, sid, where):
         """Hook for fault injection at named points of the protocol (no-op unless faults are planned)."""
@@ -141,13 +158,17 @@ class AsyncProxy(BaseProxy):
                 t, inputs, m = args
                 ctx.steptime[self.sid] = t
                 ev = {"k": "SB", "s": self.sid, "t": t, "m": m, "inp": _inp_list(inputs)}
-                if getattr(loop, "rt", False):
-                    ev["w"] = loop.ticks()
+                if ctx.rt is not None:
+                    ev["w"] = ctx.ticks()
                 ctx.record(ev)
             else:
                 ctx.record({"k": "DB", "s": self.sid})
             p = Pending(func, self.sid, ctx.nstep.get(self.sid, 0), copy.deepcopy(tuple(args)), fut, ctx.nreq)
             ctx.pending[self.sid] = p
+            if ctx.rt is not None:
+                # real-time runs: the reply arrives after the step's (virtual) duration, not when a controller says so
+                dur = ctx.behaviour.duration(ctx, p) if hasattr(ctx.behaviour, "duration") else 0.0
+                loop.call_later(dur, ctx.deliver_now, self.sid)
             rep: Reply = await fut
             for call in rep.calls:
                 await self._callback(call)
@@ -158,8 +179,8 @@ class AsyncProxy(BaseProxy):
             if func == "step":
                 nk, n = _enc_next(res)
                 ev = {"k": "SE", "s": self.sid, "nk": nk, "n": n, "nodata": self.sid not in ctx.has_out}
-                if getattr(loop, "rt", False):
-                    ev["w"] = loop.ticks()
+                if ctx.rt is not None:
+                    ev["w"] = ctx.ticks()
                 ctx.record(ev)
             else:
                 ctx.record(_de_event(self.sid, res, ctx.steptime[self.sid]))
@@ -206,7 +227,7 @@ def _enc_cb(name, arg):
                     out.append({"src": ssid, "se": seid, "dst": dsid, "de": deid, "da": a, "val": str(v)})
         return out
     if name == "set_event":
-        return arg
+        return int(arg)
     if name == "get_data":
         return sorted({full.partition(".")[0] for full in arg})
     if name == "get_data_result":
@@ -249,6 +270,8 @@ def build_world(ctx: Ctx, loop, world_kw=None, connect_order=None):
         kw["debug"] = True
     if scn.get("time_resolution") is not None:
         kw["time_resolution"] = scn["time_resolution"]
+    if scn.get("rt") and scn["rt"].get("time_resolution") is not None:
+        kw["time_resolution"] = scn["rt"]["time_resolution"]
     kw.update(world_kw or {})
     world = mosaik.World({}, **kw)
     ctx.world = world
@@ -400,11 +423,43 @@ def execute(scn: dict, behaviour, policy, run_kw=None, world_kw=None, connect_or
             internal.attach(ctx)
         kw = dict(until=scn["until"], print_progress=False, lazy_stepping=scn["lazy"])
         kw.update(run_kw or {})
+        restore = []
+        if scn.get("rt") or scn.get("capture_log"):
+            from loguru import logger
+            import mosaik.scheduler as _sched
+
+            rt = scn.get("rt") or {}
+            if rt:
+                kw["rt_factor"] = rt["rt_factor"]
+                kw["rt_strict"] = bool(rt.get("strict"))
+                reads = [0]
+                exact = bool(rt.get("exact_clock"))
+
+                def clock():
+                    # a real perf_counter is strictly increasing between reads
+                    reads[0] += 1
+                    return loop.time() + (0 if exact else reads[0] * 2.0 ** -30)
+
+                saved = _sched.perf_counter
+                _sched.perf_counter = clock
+                restore.append(lambda: setattr(_sched, "perf_counter", saved))
+                ctx.rt_t0 = loop.time()
+
+            def sink(message):
+                text = message.record["message"]
+                cat = "too_slow" if "too slow" in text else "event_after_end" if "is after simulation end" in text else "other"
+                ctx.record({"k": "LOG", "cat": cat, "w": ctx.ticks() if ctx.rt is not None else 0})
+
+            hid = logger.add(sink, level="WARNING", format="{message}")
+            restore.append(lambda: logger.remove(hid))
         try:
             world.run(**kw)
             ctx.outcome = {"r": "ok", "msg": "", "phase": "run"}
         except BaseException as e:  # noqa: BLE001
             ctx.outcome = dict(classify(e), phase="run")
+        finally:
+            for fn in restore:
+                fn()
     finally:
         ctx.loop_closed = loop.is_closed()
         try:
